@@ -418,7 +418,8 @@ static ares_status_t process_option(ares_sysconfig_t *sysconfig,
   size_t        num = 0;
   const char   *key;
   const char   *val;
-  unsigned int  valint = 0;
+  unsigned int  valint   = 0;
+  ares_bool_t   have_val = ARES_FALSE;
   ares_status_t status;
 
   /* Split on : */
@@ -435,20 +436,31 @@ static ares_status_t process_option(ares_sysconfig_t *sysconfig,
 
   key = kv[0];
   if (num == 2) {
-    val    = kv[1];
-    valint = (unsigned int)strtoul(val, NULL, 10);
+    val = kv[1];
+    /* Only a plain decimal number is a value: no sign, no trailing garbage,
+     * and few enough digits to fit */
+    if (ares_str_isnum(val) && ares_strlen(val) <= 9) {
+      valint   = (unsigned int)strtoul(val, NULL, 10);
+      have_val = ARES_TRUE;
+    }
   }
 
   if (ares_streq(key, "ndots")) {
-    sysconfig->ndots = valint;
+    if (!have_val) {
+      status = ARES_EFORMERR;
+      goto done;
+    }
+    /* Documented range is 0-15 */
+    sysconfig->ndots = (valint > 15) ? 15 : valint;
   } else if (ares_streq(key, "retrans") || ares_streq(key, "timeout")) {
-    if (valint == 0) {
+    /* seconds, stored as milliseconds in 32 bits */
+    if (!have_val || valint == 0 || valint > 0xFFFFFFFFU / 1000) {
       status = ARES_EFORMERR;
       goto done;
     }
     sysconfig->timeout_ms = valint * 1000;
   } else if (ares_streq(key, "retry") || ares_streq(key, "attempts")) {
-    if (valint == 0) {
+    if (!have_val || valint == 0) {
       status = ARES_EFORMERR;
       goto done;
     }
